@@ -178,4 +178,22 @@ theorem sta_path (cfg : WCfg) (p : MapIn) (W : Nat → Win)
     rw [ih o.out hrest, hout, shift_shift]
     simp [pathLines]
 
+/-- Boolean form of `PathOK` (evaluated in the examples) -/
+def pathOKB (p : MapIn) (W : Nat → Win) : Nat → List (OpRow × Nat) → Bool
+  | _, [] => true
+  | x, (o, i) :: rest => decide (o ∈ p.ops) && decide (o.out ≠ p.ix.tmp) && decide (i < 4) &&
+      decide (p.src (o.ins.getD i 0) = x) &&
+      ((List.range 4).all fun j => j == i || decide (W (p.src (o.ins.getD j 0)) = none)) && pathOKB p W o.out rest
+
+theorem pathOKB_sound (p : MapIn) (W : Nat → Win) : ∀ x path, pathOKB p W x path = true → PathOK p W x path
+  | _, [], _ => trivial
+  | x, (o, i) :: rest, h => by
+    simp only [pathOKB, Bool.and_eq_true, decide_eq_true_eq, List.all_eq_true, List.mem_range, Bool.or_eq_true,
+      beq_iff_eq] at h
+    obtain ⟨⟨⟨⟨⟨h1, h2⟩, h3⟩, h4⟩, h5⟩, h6⟩ := h
+    exact ⟨h1, h2, h3, h4, fun j hj hji => (h5 j hj).resolve_left hji, pathOKB_sound p W o.out rest h6⟩
+
+theorem sum_map_congr {α} (l : List α) (f g : α → Int) (h : ∀ a ∈ l, f a = g a) : (l.map f).sum = (l.map g).sum := by
+  rw [List.map_congr_left h]
+
 end KV.SdfWave
